@@ -13,7 +13,7 @@ from rdflib import BNode, Literal, URIRef
 
 from .. import enc, framework as F, shapes as S, evalcheck as EC, leaves as LV
 from ..enc import EX, SH
-from rdflib.namespace import RDFS, XSD
+from rdflib.namespace import RDF, RDFS, XSD
 from . import c02, c05, c15
 
 c02_classes = S.CLASSES + [EX.C3, EX.C4]
@@ -149,6 +149,22 @@ def main(tier, seed, replay=None):
                     for pr_ in (EX.r, EX.s):
                         for o_ in rng.sample(pool_[:4], 2) + rng.sample(pool_, rng.randint(0, 2)):
                             c["data"].add((fn_, pr_, o_))
+                if rng.random() < 0.8:
+                    # value nodes with SEVERAL rdf:type values of which one meets sh:class only through rdfs:subClassOf: which type the store
+                    # lists first (or last) is an insertion-order effect, the answer of sh:class is not
+                    fn_ = rng.choice([n_ for n_ in c["nodes"] if isinstance(n_, URIRef)])
+                    cs_ = S.new_shape(EX.MTC, ("pred", str(EX.t)))
+                    cs_["targets"]["nodes"] = [fn_]
+                    cs_["comps"].append(("class", [EX.MTop]))
+                    c["shapes"].append(cs_)
+                    c["data"].add((EX.MSub, RDFS.subClassOf, EX.MTop))
+                    c["data"].add((EX.MSubSub, RDFS.subClassOf, EX.MSub))
+                    c["data"].add((EX.MOther2, RDFS.subClassOf, EX.MOther1))
+                    for i_ in range(rng.randint(1, 3)):
+                        v_ = rng.choice([EX["mtv%d" % i_], BNode("mtv%d_%d" % (j, i_))])
+                        c["data"].add((fn_, EX.t, v_))
+                        for ty_ in rng.sample([EX.MSub, EX.MSubSub, EX.MOther1, EX.MOther2, EX.MOther3], rng.randint(2, 3)):
+                            c["data"].add((v_, RDF.type, ty_))
                 c["sg"] = S.shapes_to_rdf(c["shapes"])
                 opts, api, fam = {}, "validate", "core components"
             elif r < 0.62:
